@@ -182,6 +182,10 @@ func genC09(t *rapid.T) c09Case {
 
 var c09Determinism = Register(Prop[c09Case]{
 	ID: "C09", Name: "determinism", Gen: genC09, Run: runC09,
+	Minimize: func(c c09Case, stillFails func(c09Case) bool) c09Case {
+		c.flowCase = minimizeFlow(c.flowCase, func(f flowCase) bool { cc := c; cc.flowCase = f; return stillFails(cc) })
+		return c
+	},
 	Render: func(c c09Case) any {
 		return map[string]any{"files": renderCanonical(c.Script), "choices": c.Choices, "seed": c.Seed}
 	},
